@@ -95,6 +95,17 @@ def run(tier, seed, broken_proof=False):
     cand = ops.corpus_cases(False) + ops.gen_ops_cases(rng, count * 2, False, max_atoms=4, max_conds=5, nq=5, prefix="c")
     m0 = common.run_model(cand)
     cases = [c for c in cand if m0[c["id"]]["part"] is not None and c["base"]][:count]
+    # larger exception hierarchies (parallel properties, conjunctive exceptions, free defaults): forced impacts beyond small bounds
+    big = []
+    for i in range(count // 4):
+        nn = rng.randrange(5, 7)
+        big.append(make_case("cb%d" % i, nn, common.gen_base_hierarchy(rng, nn, 5), [(1, common.V(0), common.V(1))], False))
+    mb = common.run_model(big)
+    cases += [c for c in big if mb[c["id"]]["part"] is not None and len(c["base"]) <= 6][: count // 6]
+    for c in cases:
+        tq = ops.tradeoff_queries(rng, c, 4)
+        k = max([q[0] for q in c["queries"]] + [0])
+        c["queries"] = list(c["queries"]) + [(k + 1 + i, b, a) for i, (b, a) in enumerate(tq)]
     # the model's c-inference structures use positions; bases here are keyed 1..n in order
     ires = {}
     for out in ops.pool().imap_unordered(_worker, cases, chunksize=2):
